@@ -53,7 +53,7 @@ fn crlf_case<const A: usize, const B: usize>() {
     let r1 = okf(rd.read(&mut buf[..]));
     let bad1 = bare_lf(&a[..], false);
     if A > 0 && B > 0 {
-        kani::cover!(a[A - 1] == b'\r' && b[0] == b'\n', "CR | LF across reads");
+        kani::cover!(a[A - 1] == b'\r' && b[0] == b'\n', "maybe: CR | LF across reads");
     }
     if A > 0 {
         assert!(r1.is_some() == !bad1, "C14 CrLfCheckReader: first chunk verdict differs from reference");
